@@ -1,11 +1,11 @@
 """C06 — Coq theorems over coq/Model/Pool.v (lists regenerated from the source) + simulation of the real executor code with monitors."""
 from checks import simcommon as S
 
-FAMILIES = ['killshutdown', 'cancelfail']
+FAMILIES = ['killshutdown', 'cancelfail', 'killbadarg']
 PER_FAMILY = (600, 12000)
 
 
-PROOF = S.pool_proof('C06', ['C06_forced_flag_always_set', 'C06_forced_shutdown_is_prompt', 'C06_nothing_accepted_after_the_call', 'C06_structure', 'C06_own_kills_never_orphan_the_management_lock', 'C06_worker_only_probes_the_management_lock', 'C06_manager_survives_a_forced_shutdown', 'C06_failing_the_table_never_kills_the_manager', 'C06_forced_shutdown_ends_the_feeder_thread'],
+PROOF = S.pool_proof('C06', ['C06_forced_flag_always_set', 'C06_forced_shutdown_is_prompt', 'C06_nothing_accepted_after_the_call', 'C06_structure', 'C06_own_kills_never_orphan_the_management_lock', 'C06_worker_only_probes_the_management_lock', 'C06_manager_survives_a_forced_shutdown', 'C06_failing_the_table_never_kills_the_manager', 'C06_forced_shutdown_ends_the_feeder_thread', 'C06_forced_loop_survives_the_feeder'],
                     'the killing of descendants (kill_process_tree) is checked by shape facts and by the simulation, not modelled; the management lock against the kills loky performs itself is Model/KillLock.v (H10, fixed); kills from outside (H5) are outside the theorem', extra_gen=['Worker'])
 
 
